@@ -428,6 +428,143 @@ fn run_ticker_remove(c: &TickerRemoveCase) -> CaseResult {
     Ok(v)
 }
 
+// ------------------------------------------------------------------------------------------
+// the process's own stdout / stderr, redirected to something that is not a terminal
+
+#[derive(Debug, Clone, Serialize, Deserialize)]
+pub struct StdCase {
+    /// which constructor builds the target on the redirected stream
+    ctor: u8,
+    hz: u8,
+    len: Option<u64>,
+    ops: Vec<BOp>,
+}
+
+static STD_STREAMS: std::sync::Mutex<()> = std::sync::Mutex::new(());
+
+const STD_CTORS: [&str; 12] = [
+    "ProgressDrawTarget::stdout_with_hz",
+    "ProgressDrawTarget::stderr_with_hz",
+    "ProgressDrawTarget::stdout",
+    "ProgressDrawTarget::stderr",
+    "ProgressBar::new",
+    "ProgressBar::new_spinner",
+    "MultiProgress::new",
+    "MultiProgress::with_draw_target(stdout_with_hz)",
+    "MultiProgress::with_draw_target(stderr_with_hz)",
+    "ProgressDrawTarget::term(Term::stdout())",
+    "ProgressDrawTarget::term(Term::buffered_stderr())",
+    "ProgressBar::with_draw_target(stderr) + with_style + with_message",
+];
+
+/// File descriptors 1 and 2 of the harness process point to an anonymous file while the case runs (one
+/// case at a time; the harness itself prints nothing during a part), so "is not a tty" holds for them
+/// whatever the check was started from, and every byte the crate writes is seen.
+fn run_std(c: &StdCase) -> CaseResult {
+    use std::io::Write;
+    use std::os::fd::AsRawFd;
+    let _clk = clock::Armed::new();
+    let _one = STD_STREAMS.lock().unwrap_or_else(|e| e.into_inner());
+    let file = memfd();
+    let _ = std::io::stdout().flush();
+    let _ = std::io::stderr().flush();
+    let (saved1, saved2) = unsafe { (libc::dup(1), libc::dup(2)) };
+    if saved1 < 0 || saved2 < 0 {
+        return Err(Fail::new("harness", "dup failed".to_string()));
+    }
+    unsafe {
+        libc::dup2(file.as_raw_fd(), 1);
+        libc::dup2(file.as_raw_fd(), 2);
+    }
+    let which = c.ctor as usize % STD_CTORS.len();
+    let hz = c.hz.max(1);
+    let r = catch(|| -> Result<(), Fail> {
+        let twin = ProgressBar::with_draw_target(c.len, ProgressDrawTarget::hidden());
+        twin.set_style(style());
+        let mut keep_mp = None;
+        let hid = match which {
+            0 => ProgressBar::with_draw_target(c.len, ProgressDrawTarget::stdout_with_hz(hz)),
+            1 => ProgressBar::with_draw_target(c.len, ProgressDrawTarget::stderr_with_hz(hz)),
+            2 => ProgressBar::with_draw_target(c.len, ProgressDrawTarget::stdout()),
+            3 => ProgressBar::with_draw_target(c.len, ProgressDrawTarget::stderr()),
+            4 | 5 => {
+                let pb = if which == 4 { ProgressBar::new(0) } else { ProgressBar::new_spinner() };
+                match c.len {
+                    Some(l) => pb.set_length(l),
+                    None => pb.unset_length(),
+                }
+                pb
+            }
+            6 | 7 | 8 => {
+                let mp = match which {
+                    6 => MultiProgress::new(),
+                    7 => MultiProgress::with_draw_target(ProgressDrawTarget::stdout_with_hz(hz)),
+                    _ => MultiProgress::with_draw_target(ProgressDrawTarget::stderr_with_hz(hz)),
+                };
+                let first = mp.add(ProgressBar::new(3));
+                first.tick();
+                let pb = mp.add(ProgressBar::with_draw_target(c.len, ProgressDrawTarget::hidden()));
+                let _ = mp.println("a line for the terminal");
+                mp.suspend(|| ());
+                let _ = mp.clear();
+                ensure!(mp.is_hidden(), "not_hidden", "{}: MultiProgress::is_hidden() is false although the stream is not a terminal", STD_CTORS[which]);
+                first.finish();
+                keep_mp = Some(mp);
+                pb
+            }
+            9 => ProgressBar::with_draw_target(c.len, ProgressDrawTarget::term(console::Term::stdout(), hz)),
+            10 => ProgressBar::with_draw_target(c.len, ProgressDrawTarget::term(console::Term::buffered_stderr(), hz)),
+            _ => ProgressBar::with_draw_target(c.len, ProgressDrawTarget::stderr()).with_style(style()).with_message(""),
+        };
+        hid.set_style(style());
+        ensure!(hid.is_hidden(), "not_hidden", "{}: is_hidden() is false although the stream is not a terminal", STD_CTORS[which]);
+        for (i, op) in c.ops.iter().enumerate() {
+            clock::advance(Duration::from_millis(120));
+            exec_quiet(&twin, op);
+            exec_quiet(&hid, op);
+            let (a, b) = (snap(&twin), snap(&hid));
+            ensure!(a == b, "state_diverged", "{}: after op #{i} {op:?}: (position, length, message, prefix, finished, elapsed, eta, per_sec bits) = {b:?}, a bar with a hidden target has {a:?}", STD_CTORS[which]);
+        }
+        drop(hid);
+        drop(keep_mp);
+        Ok(())
+    });
+    let _ = std::io::stdout().flush();
+    let _ = std::io::stderr().flush();
+    unsafe {
+        libc::dup2(saved1, 1);
+        libc::dup2(saved2, 2);
+        libc::close(saved1);
+        libc::close(saved2);
+    }
+    r.map_err(|p| Fail::new("panic", format!("{}: history panicked: {p} (ops {:?})", STD_CTORS[which], c.ops)))??;
+    let written = file.metadata().map(|m| m.len()).unwrap_or(0);
+    if written > 0 {
+        use std::io::{Read, Seek};
+        let mut f = file.try_clone().map_err(|e| Fail::new("harness", e.to_string()))?;
+        let _ = f.rewind();
+        let mut bytes = vec![];
+        let _ = f.take(120).read_to_end(&mut bytes);
+        return Err(Fail::new(
+            "not_silent",
+            format!("{} on a stream that is not a terminal: {written} bytes were written to it, starting {:?} (ops {:?})", STD_CTORS[which], String::from_utf8_lossy(&bytes), c.ops),
+        ));
+    }
+    let mut v = Verdict::default();
+    let forced = c.ops.iter().any(|o| matches!(o, BOp::Println(_) | BOp::Suspend(_) | BOp::Finish | BOp::FinishWithMessage(_) | BOp::Abandon | BOp::FinishAndClear | BOp::AbandonWithMessage(_)));
+    v.nontrivial = !c.ops.is_empty();
+    v.label(["ctor_with_hz", "ctor_with_hz", "ctor_plain", "ctor_plain", "ctor_bar_default", "ctor_bar_default", "ctor_multi_default", "ctor_multi_with_hz", "ctor_multi_with_hz", "ctor_term", "ctor_term", "ctor_plain"][which]);
+    v.label_if(forced, "forced_draw");
+    Ok(v)
+}
+
+fn std_strategy(tier: Tier) -> BoxedStrategy<StdCase> {
+    let n = tier.pick(12, 30);
+    (0u8..12, prop_oneof![Just(1u8), Just(20), Just(255), any::<u8>()], proptest::option::weighted(0.8, 0u64..100), proptest::collection::vec(c01::bop_strategy(20), 0..n))
+        .prop_map(|(ctor, hz, len, ops)| StdCase { ctor, hz, len, ops })
+        .boxed()
+}
+
 pub fn property() -> Property {
     let w = default_workers();
     Property {
@@ -435,7 +572,7 @@ pub fn property() -> Property {
         level: "exploration",
         assumptions: &[
             "'terminal operation' = a fallible TermLike call (moves, writes, clear, flush) resp. any byte written to the non-tty Term; size queries are not counted",
-            "Term that is not a tty = console::Term::read_write_pair over a memfd",
+            "Term that is not a tty = console::Term::read_write_pair over a memfd; in part std_streams the process's own stdout and stderr, pointed at a memfd for the duration of a case",
             "state equivalence is checked against a visible twin driven by the same calls under the same virtual clock (elapsed, eta and per_sec bit-equal as well)",
         ],
         parts: vec![Box::new(Gen::<HiddenCase> {
@@ -458,6 +595,17 @@ pub fn property() -> Property {
             signature: no_signature,
             essential: &["removed_while_ticker_runs_and_multi_progress_is_busy"],
             workers: 4,
+            decode: None,
+        }),
+        Box::new(Gen::<StdCase> {
+            name: "std_streams",
+            rule: "file descriptors 1 and 2 of the harness process are pointed at an anonymous file (not a terminal) while a C01 history of 0-12 (thorough 30) ops runs on a bar or MultiProgress member built by each constructor that draws to stdout/stderr (stdout(), stderr(), stdout_with_hz, stderr_with_hz, term(Term::stdout()/buffered_stderr()), ProgressBar::new, new_spinner, MultiProgress::new, MultiProgress::with_draw_target(*_with_hz)); no byte may arrive in the file, is_hidden() is true, and the getters equal those of a bar with a hidden target after every op; one case at a time",
+            strategy: std_strategy,
+            cases: |t| t.pick(400, 20_000),
+            run: run_std,
+            signature: no_signature,
+            essential: &["ctor_with_hz", "ctor_plain", "ctor_bar_default", "ctor_multi_default", "ctor_multi_with_hz", "ctor_term", "forced_draw"],
+            workers: 1,
             decode: None,
         })],
     }
